@@ -158,6 +158,21 @@ fn flags_of(names: &str) -> Flags {
     fuzzlock::parse_flags(names)
 }
 
+/// Does the case kill a process outright (non-unwinding panic such as a failed unsafe precondition, stack overflow)?
+/// Run in a child (`vcheck --one <file>`), so that the parent survives; Some(what happened) if the child died by a signal.
+pub fn dies_in_child(id: &str, sub: &str, case: &Value, work: &std::path::Path) -> Option<String> {
+    let file = work.join("probe.json");
+    let body = json!({"property": id, "check": sub, "seed": 0, "tier": "quick", "case": case, "expected": "", "observed": ""});
+    std::fs::write(&file, serde_json::to_string(&body).ok()?).ok()?;
+    let out = Command::new(std::env::current_exe().ok()?).arg("--one").arg(&file).stdin(std::process::Stdio::null()).output().ok()?;
+    if out.status.code().is_none() {
+        let err = String::from_utf8_lossy(&out.stderr);
+        let tail: Vec<&str> = err.lines().filter(|l| !l.trim_start().starts_with("at ") && !l.trim_start().chars().next().map(|c| c.is_ascii_digit()).unwrap_or(false)).take(4).collect();
+        return Some(format!("the process died ({}): {}", out.status, tail.join(" | ")));
+    }
+    None
+}
+
 /// Delta-debug the ops of a failing case in-process (each candidate under catch_unwind)
 pub fn shrink_case(case: &Case, flags: Flags) -> Case {
     let fails = |c: &Case| !matches!(guarded(|| lockstep::run_case(c, flags)), Ok(Ok(_)));
@@ -259,6 +274,10 @@ pub fn prepare_lockstep(id: &'static str, sub: &'static str, flag_names: &'stati
         Outcome::Crash { data, log, file } => {
             let flags = flags_of(flag_names);
             let case = fuzzlock::decode(&data);
+            // a case that aborts the process cannot be shrunk in this process
+            if let Some(what) = dies_in_child(id, sub, &lockstep::case_json(&case), &wd) {
+                return Err(PrepError::Violation(Failure::new(sub, lockstep::case_json(&case), "no abort: the session runs to its end (every unsafe precondition holds)", what)));
+            }
             let small = shrink_case(&case, flags);
             let (expected, observed) = match guarded(|| lockstep::run_case(&small, flags)) {
                 Ok(Err((e, o))) => (e, o),
